@@ -1,4 +1,6 @@
-//! C12: harness domain (stub).
+//! C12: the term order against Erlang's (Lean `Erl.cmp` on the denoted values is the oracle).
 use crate::Ctx;
 
-pub fn run(_ctx: &mut Ctx) {}
+pub fn run(ctx: &mut Ctx) {
+    crate::c11::run_mode(ctx, true)
+}
